@@ -75,7 +75,7 @@ PROPS = {
                    'Partial: that the tail length is a function of the prefix alone and the per-state bounds (<= "<"+name or a look-ahead with no handlers) are decided by the correspondence run (pending bytes after every write) '
                    'and by oracle_c09 (same prefix under different chunkings; absolute bound with no handlers). Known finding RequestLexemePending.',
         level_note='Trusted as C01.'),
-    'C14': dict(coq=['props/C14.vo'], families=[('l2match', 700, 20000), ('l2mixed', 700, 20000), ('grp-l2mixed', 600, 10000), ('utf8', 300, 6000)], projections=['events'], oracle=oracle_c14, classify=classify_c14,
+    'C14': dict(coq=['props/C14.vo'], families=[('l2match', 700, 20000), ('l2mixed', 700, 20000), ('grp-l2mixed', 600, 10000), ('utf8', 300, 6000), ('enc', 500, 10000), ('td', 300, 6000)], projections=['events'], oracle=oracle_c14, classify=classify_c14,
         technique='Coq proof of the absolute-range lemma + extraction-based correspondence run on every source_location() value; oracle slices the original input',
         level_text='Theorem C14_absolute_range_denotes_the_lexeme: the absolute range attached to a token denotes, in the whole document, exactly the bytes of the lexeme in the parse buffer, for every prefix/buffer/range. '
                    'Partial: monotonicity, disjointness and attribute ranges are decided by the correspondence run (all source locations incl. attribute name/value) and by oracle_c14 on the implementation.',
@@ -141,6 +141,15 @@ PROPS = {
                    'end handler are decided by comparing the complete handler-invocation sequence of the real rewriter with the extracted reference scope model (text chunks collapsed per node; end-tag handlers of one end tag and '
                    'end handlers compared as sets) and by the correspondence run.',
         level_note='Trusted as C04.'),
+    'C13': dict(coq=['props/C13.vo'], families=[('td', 1200, 30000), ('enc', 1500, 40000), ('utf8', 300, 6000)], projections=['events', 'results'], oracle=oracle_c13,
+        technique='Coq proof about the executable model of TextDecoder for an arbitrary streaming decoder satisfying recorded laws (proofs/TextDecoderProof.v); extraction-based correspondence run of the '
+                  'model instantiated with an executable UTF-8 decoder; for all 36 encodings the harness compares what handlers read / what the sink receives with encoding_rs whole-buffer decode / encode',
+        level_text='Theorem C13_text_chunks_are_the_whole_buffer_decode: for every streaming decoder obeying decoder_laws (assumed behaviour of encoding_rs, satisfiable: C13_laws_are_satisfiable), every text node and every split into '
+                   'lexemes (cuts inside multi-byte characters, buffer refills), the chunks handed to text handlers concatenate to the whole-buffer decode of the node, their ranges tile the node and exactly the final chunk is last_in_text_node. '
+                   'Partial: encoding_rs itself (the 36 codecs), the encoder side (numeric character references), names/attribute values/comment text, and the meta-charset switch are outside the model; they are decided on the implementation '
+                   'by the level-3 harness oracle (strings read vs Encoding::decode_without_bom_handling of the token bytes, sink bytes vs Encoding::encode, set_encoding positions, refusal of non-ASCII-compatible encodings is by type). '
+                   'The model of TextDecoder is tied to the code by the correspondence run on text-only UTF-8 documents (chunk text merged per node, ranges, last flags).',
+        level_note='Trusted as C01 plus: decoder_laws as the contract of encoding_rs::Decoder::decode_to_str; harness/src/l3.rs (reference computations with encoding_rs one-shot decode/encode); the Coq UTF-8 decoder instance is a model of encoding_rs validated only by the correspondence run.'),
     #'C01': dict(coq=['props/C01.vo'], families=[('l1', 1500, 40000)], projections=['out_bytes'], oracle=oracle_c01),
     'C12': dict(coq=['props/C12.vo'], families=[('l1', 800, 20000), ('l1fail', 500, 10000), ('l2fail', 500, 10000), ('l2edit', 500, 10000)], projections=['sink_protocol'], oracle=oracle_c12,
         technique='Coq proof: generic frame theorem over the executable model + invariant over call histories; extraction-based correspondence run',
